@@ -24,6 +24,8 @@ pub enum Monitor {
     C03,
     C04,
     C05,
+    /// Tombstone GC on replicas inside cluster histories (late collection).
+    C06,
     C12,
     C13,
     C16,
@@ -38,6 +40,7 @@ impl Monitor {
             Monitor::C03 => "C03",
             Monitor::C04 => "C04",
             Monitor::C05 => "C05",
+            Monitor::C06 => "C06",
             Monitor::C12 => "C12",
             Monitor::C13 => "C13",
             Monitor::C16 => "C16",
@@ -93,6 +96,9 @@ pub enum Op {
     /// External catch-up: `node` fetches `peer`'s copy of `member` (entries incl. tombstones, max
     /// version, watermark) and feeds it to `reset_node_state_if_update`, as an application would.
     CatchUp { node: u16, peer: u16, member: u16 },
+    /// Same, but the state travels as an application would ship it: `state_snapshot()` of the peer
+    /// serialized to JSON and deserialized (statuses survive, deletion instants restart).
+    CatchUpSerde { node: u16, peer: u16, member: u16 },
 }
 
 #[derive(Clone, Debug, PartialEq, Serialize, Deserialize)]
@@ -221,6 +227,10 @@ pub struct World<'a> {
     fresh_since_creation: BTreeMap<(usize, ChitchatId), (u64, u32)>,
     /// copies that passed a delete (C02 non-triviality)
     passed_delete: BTreeSet<(usize, ChitchatId)>,
+    /// (slot, member, key, version) -> virtual time at which this node first held that marked
+    /// (deleted / TTL) entry (C06: grace period counted from receipt)
+    marked_since: BTreeMap<(usize, ChitchatId, String, u64), u128>,
+    catch_up_via_serde: bool,
     flags: CaseFlags,
     excluded_known: u64,
     steps: u64,
@@ -273,6 +283,8 @@ impl<'a> World<'a> {
             removed_hb: BTreeMap::new(),
             fresh_since_creation: BTreeMap::new(),
             passed_delete: BTreeSet::new(),
+            marked_since: BTreeMap::new(),
+            catch_up_via_serde: false,
             flags: CaseFlags::default(),
             excluded_known: 0,
             steps: 0,
@@ -482,7 +494,8 @@ impl<'a> World<'a> {
                     }
                 }
             }
-            Op::CatchUp { node, peer, member } => {
+            Op::CatchUp { node, peer, member } | Op::CatchUpSerde { node, peer, member } => {
+                self.catch_up_via_serde = matches!(op, Op::CatchUpSerde { .. });
                 if let (Some(n), Some(p)) = (self.pick_running(node), self.pick_running(peer)) {
                     // An application only fetches states from nodes of its own cluster.
                     if n != p && self.cfg.cluster_of[n] % 2 == self.cfg.cluster_of[p] % 2 {
@@ -503,8 +516,22 @@ impl<'a> World<'a> {
         }
         let member = members[pick_idx(member_sel, members.len())].clone();
         let Some(src) = peer.chitchat.node_state(&member) else { return Ok(()) };
-        let kvs: Vec<(String, chitchat::VersionedValue)> = src.key_values_including_deleted().map(|(k, vv)| (k.to_string(), vv.clone())).collect();
-        let (max, gc) = (src.max_version(), src.last_gc_version());
+        let (kvs, max, gc): (Vec<(String, chitchat::VersionedValue)>, u64, u64) = if self.catch_up_via_serde {
+            // peer snapshot -> JSON -> snapshot
+            let snapshot = peer.chitchat.state_snapshot();
+            let json = match serde_json::to_string(&snapshot) {
+                Ok(j) => j,
+                Err(e) => return Err(StepErr::Discard(format!("snapshot does not serialize: {e}"))),
+            };
+            let back: chitchat::ClusterStateSnapshot = match serde_json::from_str(&json) {
+                Ok(b) => b,
+                Err(e) => return Err(StepErr::Discard(format!("snapshot does not deserialize: {e}"))),
+            };
+            let Some(ns) = back.node_states.iter().find(|ns| *ns.chitchat_id() == member) else { return Ok(()) };
+            (ns.key_values_including_deleted().map(|(k, vv)| (k.to_string(), vv.clone())).collect(), ns.max_version(), ns.last_gc_version())
+        } else {
+            (src.key_values_including_deleted().map(|(k, vv)| (k.to_string(), vv.clone())).collect(), src.max_version(), src.last_gc_version())
+        };
         let wid = WId::from_real(&member);
         let peer_taints: Vec<(String, u64)> = self.taints.iter().filter(|(s, w, _, _)| *s == p && *w == wid).map(|(_, _, k, v)| (k.clone(), *v)).collect();
         let node = self.nodes[n].as_mut().unwrap();
@@ -595,6 +622,7 @@ impl<'a> World<'a> {
         self.removed_hb.retain(|(s, _), _| *s != slot);
         self.fresh_since_creation.retain(|(s, _), _| *s != slot);
         self.passed_delete.retain(|(s, _)| *s != slot);
+        self.marked_since.retain(|(s, _, _, _), _| *s != slot);
     }
 
     fn panic_policy(&self, p: PanicInfo, during: &str) -> StepErr {
@@ -660,6 +688,25 @@ impl<'a> World<'a> {
         let after: u64 = node.chitchat.node_states().values().map(|ns| ns.key_values_including_deleted().count() as u64).sum();
         if after < before {
             self.flags.gc_collected = true;
+        }
+        if self.mon == Monitor::C06 {
+            // Every marked entry this node has held for a full grace period must be gone now.
+            let grace = self.cfg.kv_grace_ms as u128 * 1_000_000;
+            let node = self.nodes[slot].as_ref().unwrap();
+            for (id, ns) in node.chitchat.node_states() {
+                for (k, vv) in ns.key_values_including_deleted() {
+                    if status_code(&vv.status) == 0 {
+                        continue;
+                    }
+                    if let Some(since) = self.marked_since.get(&(slot, id.clone(), k.to_string(), vv.version)) {
+                        if self.now_ns >= since + grace {
+                            return Err(fail(Monitor::C06, "marked-entry-survived-gc", format!("n{slot}'s copy of {:?} (watermark {}, max {}): key {k:?} (v{}, status {}) has been held for {} ms >= grace {} ms and survived a GC pass", id, ns.last_gc_version(), ns.max_version(), vv.version, status_code(&vv.status), (self.now_ns - since) / 1_000_000, self.cfg.kv_grace_ms)).into());
+                        }
+                    }
+                }
+            }
+            let present: BTreeSet<(ChitchatId, String, u64)> = node.chitchat.node_states().iter().flat_map(|(id, ns)| ns.key_values_including_deleted().map(move |(k, vv)| (id.clone(), k.to_string(), vv.version))).collect();
+            self.marked_since.retain(|(s, id, k, v), _| *s != slot || present.contains(&(id.clone(), k.clone(), *v)));
         }
         self.after_local_change(slot)
     }
@@ -1068,6 +1115,13 @@ impl<'a> World<'a> {
                         }
                     }
                     kv.insert(k.to_string(), (vv.version, gc));
+                }
+            }
+            if mon == Monitor::C06 {
+                for (k, vv) in ns.key_values_including_deleted() {
+                    if status_code(&vv.status) != 0 {
+                        self.marked_since.entry((slot, id.clone(), k.to_string(), vv.version)).or_insert(self.now_ns);
+                    }
                 }
             }
             new_frontiers.push((fkey, (gc, max)));
@@ -1559,6 +1613,7 @@ impl<'a> World<'a> {
             Monitor::C03 => (self.running().len() >= 3 && f.third_party_learned) || f.reset,
             Monitor::C04 => f.dup_delivery || f.reordered,
             Monitor::C05 => f.relayed_about_self,
+            Monitor::C06 => f.gc_collected && (f.reset || f.catch_up),
             Monitor::C12 => f.removed_then_mentioned,
             Monitor::C13 => f.predicate_or_live_changed,
             Monitor::C16 => f.cross_cluster_syn && (f.dup_delivery || f.reordered),
@@ -1740,7 +1795,8 @@ fn deep_op_strategy() -> BoxedStrategy<Op> {
         8 => any::<u16>().prop_map(Op::Deliver),
         3 => any::<u16>().prop_map(Op::Duplicate),
         2 => any::<u16>().prop_map(Op::Drop),
-        9 => (any_slot.clone(), any_slot.clone(), prop_oneof![3 => Just(0u16), 1 => any::<u16>()]).prop_map(|(node, peer, member)| Op::CatchUp { node, peer, member }),
+        6 => (any_slot.clone(), any_slot.clone(), prop_oneof![3 => Just(0u16), 1 => any::<u16>()]).prop_map(|(node, peer, member)| Op::CatchUp { node, peer, member }),
+        4 => (any_slot.clone(), any_slot.clone(), prop_oneof![3 => Just(0u16), 1 => any::<u16>()]).prop_map(|(node, peer, member)| Op::CatchUpSerde { node, peer, member }),
         2 => any::<u16>().prop_map(Op::Join),
         1 => (any_slot.clone(), any_slot).prop_map(|(a, b)| Op::Cut { a, b }),
     ]
@@ -1839,6 +1895,9 @@ fn membership_phased_ops_strategy() -> BoxedStrategy<Vec<Op>> {
                 1 => any::<u16>().prop_map(Op::Duplicate),
                 1 => any_slot().prop_map(Op::Heartbeat),
                 1 => (any_slot(), any_slot(), any::<u16>()).prop_map(|(node, peer, member)| Op::CatchUp { node, peer, member }),
+                2 => any_slot().prop_map(Op::GcKeys),
+                1 => (0i8..=1).prop_map(|k| Op::Advance(Adv::KvGrace(k))),
+                1 => (any_slot(), 0u8..7, val_large()).prop_map(|(node, key, val)| Op::Write { node, kind: WKind::Set, key, val }),
             ],
             3..16,
         )
@@ -1908,7 +1967,7 @@ fn op_strategy(profile: Profile) -> BoxedStrategy<Op> {
     let round = (n, any::<u8>()).prop_map(|(node, mask)| Op::Round { node, mask }).boxed();
     let handshake = (n, n).prop_map(|(a, b)| Op::Handshake { a, b }).boxed();
     let synhold = (n, n).prop_map(|(a, b)| Op::SynHold { a, b }).boxed();
-    let catchup = (n, n, n).prop_map(|(node, peer, member)| Op::CatchUp { node, peer, member }).boxed();
+    let catchup = (n, n, n, any::<bool>()).prop_map(|(node, peer, member, serde)| if serde { Op::CatchUpSerde { node, peer, member } } else { Op::CatchUp { node, peer, member } }).boxed();
     // weights: write adv hb gc live syn deliver drop dup cut heal join crash restart round handshake (+ synhold catchup: 2 each)
     let w: [u32; 16] = match profile {
         Profile::Small => [24, 5, 2, 4, 2, 10, 20, 3, 5, 2, 2, 2, 0, 0, 4, 15],
@@ -1986,6 +2045,7 @@ pub fn profiles_for(mon: Monitor) -> Vec<(u32, Profile)> {
     match mon {
         Monitor::C12 | Monitor::C13 => vec![(4, Profile::Membership), (4, Profile::MemberPhased), (1, Profile::Gc), (1, Profile::Partition)],
         Monitor::C16 => vec![(1, Profile::TwoClusters)],
+        Monitor::C06 => vec![(3, Profile::Gc), (2, Profile::TruncGc), (4, Profile::Deep), (5, Profile::Phased)],
         Monitor::C01 => vec![(3, Profile::Small), (2, Profile::Truncation), (3, Profile::Gc), (2, Profile::Partition), (3, Profile::TruncGc), (3, Profile::Deep), (3, Profile::Phased), (2, Profile::Membership), (4, Profile::MemberPhased)],
         _ => vec![(3, Profile::Small), (2, Profile::Truncation), (4, Profile::Gc), (2, Profile::Partition), (1, Profile::Membership), (2, Profile::TruncGc), (4, Profile::Deep), (5, Profile::Phased), (2, Profile::MemberPhased)],
     }
